@@ -26,7 +26,7 @@ from .. import harness, loader, sx
 MOD = "vf.props.c05"
 
 
-class _NP:
+class _NP(sx.Conversions):
     def __getattr__(self, n):
         return getattr(numpy, n)
 
@@ -106,7 +106,7 @@ def run_score(cfg):
     n, weighted, half = cfg["n"], cfg["weighted"], cfg["half"]
 
     def h(e):
-        y = e.reals("y", n)
+        y = sx.int_array([e.int(f"y_{i}", -9, 9) for i in range(n)]) if cfg.get("int_y") else e.reals("y", n)  # counts: an integer-typed target
         f = e.reals("f", n)
         if half:
             q = 0.5
@@ -154,6 +154,8 @@ def replay_score(cfg, inputs, label):
     n = cfg["n"]
     q = 0.5 if cfg["half"] else float(inputs.get("q", Fraction(1, 4)))
     y = numpy.array([float(inputs.get(f"y_{i}", 0)) for i in range(n)])
+    if cfg.get("int_y"):
+        y = numpy.array([int(inputs.get(f"y_{i}", i + 1)) for i in range(n)], dtype=numpy.int64)
     f = numpy.array([float(inputs.get(f"f_{i}", 0)) for i in range(n)])
     w = numpy.array([float(inputs.get(f"w_{i}", 1)) for i in range(n)]) if cfg["weighted"] else None
     est = qr.QuantileLinearRegression(quantile=q, fit_intercept=True)
@@ -299,7 +301,29 @@ def run_fit(cfg):
     return dict(stats=eng.stats.as_dict(), violations=viol)
 
 
+def _replay_intercept(cfg):
+    """fit_intercept=False on feature matrices as callers hold them (C float64, Fortran order, float32, integer,
+    a strided view, a DataFrame): intercept_ is 0 and coef_ has one entry per feature"""
+    import pandas
+
+    qr = loader.load("mlmodel.quantile_regression")
+    rng = numpy.random.RandomState(0)
+    A = rng.randn(30, 4)
+    y = A[:, 0] * 2 - A[:, 2] + rng.randn(30) * 0.1
+    variants = {"C float64": A[:, :2].copy(), "Fortran order": numpy.asfortranarray(A[:, :2]), "float32": A[:, :2].astype(numpy.float32), "integer": (A[:, :2] * 10).astype(numpy.int64), "strided view": A[:, ::2], "DataFrame": pandas.DataFrame(dict(a=A[:, 0], b=A[:, 1]))}
+    for name, X in variants.items():
+        try:
+            est = qr.QuantileLinearRegression(quantile=0.3, fit_intercept=False, max_iter=3).fit(X, y)
+        except Exception as ex:
+            return True, dict(X=name, raised=f"{type(ex).__name__}: {str(ex)[:160]}")
+        if est.intercept_ != 0 or numpy.shape(est.coef_) != (2,):
+            return True, dict(X=name, fit_intercept=False, intercept_=float(est.intercept_), coef_=numpy.asarray(est.coef_).tolist())
+    return False, "intercept_ == 0 without intercept for every kind of feature matrix"
+
+
 def replay_fit(cfg, inputs, label):
+    if label == "intercept_=0":
+        return _replay_intercept(cfg)
     """Real library, real LinearRegression wrapped by a recorder: the weights of the second
     least-squares call are compared with the pinball majoriser for the first beta."""
     qr = loader.load("mlmodel.quantile_regression")
@@ -501,6 +525,8 @@ def configs(tier):
                 out.append(dict(kind="score", n=n, weighted=weighted, half=half))
                 if half and n == 2:
                     out.append(dict(kind="score", n=n, weighted=weighted, half=half, column=True))
+                if not half and n == 2:
+                    out.append(dict(kind="score", n=n, weighted=weighted, half=half, int_y=True))
     # plumbing: symbolic design matrix, one least-squares call
     for n, d in ((2, 1), (3, 1)) if tier == "quick" else ((2, 1), (3, 1), (2, 2), (3, 2)):
         for weighted in (False, True):
